@@ -12,14 +12,15 @@ from __future__ import absolute_import, division, print_function
 
 import numpy as np
 
-from odl.discr.discr_space import DiscretizedSpace
+from odl.discr.discr_space import DiscretizedSpace, _scaling_func_list
 from odl.discr.discr_utils import (
     _normalize_interp, per_axis_interpolator, point_collocation)
 from odl.discr.partition import uniform_partition
 from odl.operator import Operator
 from odl.space import tensor_space
 from odl.util import (
-    normalized_scalar_param_list, resize_array, safe_int_conv, writable_array)
+    apply_on_boundary, normalized_scalar_param_list, resize_array,
+    safe_int_conv, writable_array)
 from odl.util.numerics import _SUPPORTED_RESIZE_PAD_MODES
 from odl.util.utility import nullcontext
 
@@ -417,11 +418,18 @@ class ResizingOperator(Operator):
 
             def _call(self, x, out):
                 """Implement ``self(x, out)``."""
+                # Boundary cells that are only partly contained in the
+                # domain (e.g. for `nodes_on_bdry=True`) have fractional
+                # weights in the inner products of `op.range` and
+                # `op.domain`, which the adjoint must account for.
+                x_arr = _scale_bdry_cells(x.asarray(), op.range)
                 with writable_array(out) as out_arr:
-                    resize_array(x.asarray(), op.domain.shape,
+                    resize_array(x_arr, op.domain.shape,
                                  offset=op.offset, pad_mode=op.pad_mode,
                                  pad_const=0, direction='adjoint',
                                  out=out_arr)
+                    out_arr[:] = _scale_bdry_cells(out_arr, op.domain,
+                                                   inverse=True)
 
             @property
             def adjoint(self):
@@ -453,6 +461,24 @@ class ResizingOperator(Operator):
         return ResizingOperator(self.range, self.domain,
                                 pad_mode=self.pad_mode,
                                 pad_const=self.pad_const)
+
+
+def _scale_bdry_cells(arr, space, inverse=False):
+    """Scale boundary entries of ``arr`` by the cell fractions of ``space``.
+
+    These are the weights (relative to an inner cell) that ``space.inner``
+    assigns to boundary cells lying only partly in the domain. For
+    ``inverse=True``, the entries are divided by the fractions instead.
+    """
+    if not space.is_uniform or space.is_uniformly_weighted:
+        return arr
+
+    bdry_fracs = space.partition.boundary_cell_fractions
+    if inverse:
+        bdry_fracs = [(1 / frac_l, 1 / frac_r)
+                      for frac_l, frac_r in bdry_fracs]
+    func_list = _scaling_func_list(bdry_fracs, exponent=1.0)
+    return apply_on_boundary(arr, func=func_list, only_once=False)
 
 
 def _offset_from_spaces(dom, ran):
